@@ -40,7 +40,18 @@ def main(argv=None):
     if a.cmd == "replay":
         d = json.load(open(a.path))
         chk = load_check(d["property"])
-        rep = chk.replay(d["obligation"], d.get("counter_model") or {}, None)
+        from pyvc.check import _replay_or_search
+        ob = d["obligation"]
+        if ".bounded_stand_in." in ob:
+            # a violation found by a bounded native stand-in: run the stand-in again on the current tree
+            rs = [r for r in chk.bounded_stand_in("quick", ["*"]) if r.get("reproduced")] if hasattr(chk, "bounded_stand_in") else []
+            if not rs:
+                from checks import native
+                rs = [r for r in (native.search_for(p, "quick") for p in native.STAND_INS) if r and r.get("reproduced")
+                      and ob.endswith(r.get("search", "?"))]
+            rep = rs[0] if rs else dict(reproduced=False)
+        else:
+            rep = _replay_or_search(chk, ob, d.get("counter_model") or {}, None, "quick")
         print(json.dumps(rep, indent=1, default=str))
         return 1 if rep and rep.get("reproduced") else 0
     if a.cmd == "list":
